@@ -1,6 +1,18 @@
 // C02 lock-step driver (style A over several loops): the REAL TcpServer / TcpClient / TcpConnection /
-// Channel / EPollPoller / EventLoop objects, one EventLoop per helper thread, NO loop() running.  The
-// main thread reads ops and hands each one to the thread that must execute it (loop thread l, or a
+// Channel / EPollPoller / EventLoop objects.  The base loop (0) is an EventLoop on a helper thread with NO
+// loop() running (doPendingFunctors is executed piecewise by the harness exactly as EventLoop.cc does it).
+// The io loops (1..nio) are the REAL threads of the server's EventLoopThreadPool (threadPool_->start()),
+// each running the REAL EventLoop::loop(); the harness parks them at three points and steps them:
+//   P1  inside Poller::poll (epoll_wait / poll are --wrap'ped: a parked io thread "is in poll()", the hook
+//       returns 0 events when the harness lets the loop go on to doPendingFunctors),
+//   P2  right after the swap of doPendingFunctors (the unlock of EventLoop::mutex_, --wrap=pthread_mutex_unlock),
+//   P3  after each functor of the batch (every queued functor is wrapped by the harness into
+//       { f(); park(); }, the wrapper owns the original functor object, so references die where they do in the code).
+// While parked an io thread executes the jobs the harness hands it (an injected Channel::handleEvent, an API
+// call "inside a callback").  ~TcpServer therefore runs the real ~EventLoopThreadPool / ~EventLoopThread:
+// quit() and join() (--wrap=pthread_join tells the harness that the base thread is blocked in join), and an io
+// thread that is released with quit_ set really leaves loop() and destroys its EventLoop with whatever is queued.
+// The main thread reads ops and hands each one to the thread that must execute it (loop thread l, or a
 // foreign thread), waits for it, and prints the observations: callbacks with the thread that ran
 // them, destructions (seen at ::close of the connection's descriptor, with the thread and whether the
 // descriptor was still in an epoll set), and per connection state_/interest/addedToLoop_/the kernel's
@@ -25,6 +37,8 @@
 #include <unistd.h>
 
 #include <algorithm>
+#include <atomic>
+#include <chrono>
 #include <condition_variable>
 #include <deque>
 #include <fstream>
@@ -97,7 +111,95 @@ static void verif_stall(int point)
   }
 }
 
+// ------------------------------------------------------------------ io threads of the real pool
+struct IoCtl
+{
+  int index;
+  muduo::net::EventLoop* loop;
+  pthread_mutex_t* loopMutex;
+  std::mutex mu;
+  std::condition_variable cv;
+  bool parked, go, freeRun, armSwap;
+  int where;
+  std::function<void()> job;
+  bool hasJob, jobDone;
+  std::atomic<bool> inPoll;
+  IoCtl() : index(0), loop(NULL), loopMutex(NULL), parked(false), go(false), freeRun(false), armSwap(false), where(0),
+            hasJob(false), jobDone(false), inPoll(false) {}
+};
+static thread_local IoCtl* t_io = NULL;
+
+static void io_park(IoCtl* io, int where)
+{
+  std::unique_lock<std::mutex> l(io->mu);
+  if (io->freeRun) return;
+  io->where = where;
+  io->parked = true;
+  io->cv.notify_all();
+  for (;;)
+  {
+    io->cv.wait(l, [io]() { return io->go || io->hasJob || io->freeRun; });
+    if (io->hasJob)
+    {
+      std::function<void()> j;
+      j.swap(io->job);
+      io->hasJob = false;
+      l.unlock();
+      j();
+      j = std::function<void()>();
+      l.lock();
+      io->jobDone = true;
+      io->cv.notify_all();
+      continue;
+    }
+    io->go = false;
+    io->parked = false;
+    return;
+  }
+}
+static void harnessStuck(const char* what)
+{
+  fprintf(stderr, "harness: %s\n", what);
+  fflush(stderr);
+  _exit(3);
+}
+static void io_exec(IoCtl* io, std::function<void()> f)
+{
+  std::unique_lock<std::mutex> l(io->mu);
+  if (!io->parked) harnessStuck("job for an io thread that is not parked");
+  io->job = std::move(f);
+  io->hasJob = true;
+  io->jobDone = false;
+  io->cv.notify_all();
+  io->cv.wait(l, [io]() { return io->jobDone; });
+}
+static void io_release(IoCtl* io, bool armSwap)
+{
+  std::unique_lock<std::mutex> l(io->mu);
+  io->armSwap = armSwap;
+  io->go = true;
+  io->parked = false;
+  io->cv.notify_all();
+}
+static void io_wait_parked(IoCtl* io, int where)
+{
+  std::unique_lock<std::mutex> l(io->mu);
+  if (!io->cv.wait_for(l, std::chrono::seconds(20), [io]() { return io->parked; })) harnessStuck("io thread did not reach its next schedule point");
+  if (io->where != where) { fprintf(stderr, "harness: io thread %d parked at %d, expected %d\n", io->index, io->where, where); _exit(3); }
+}
+
+// the base thread inside ~TcpServer: every pthread_join it reaches is the join() of an ~EventLoopThread
+static thread_local bool t_inSrvDtor = false;
+static std::mutex g_poolMu;
+static std::condition_variable g_poolCv;
+static int g_joinReached = 0;
+static bool g_sdDone = true;
+
 extern "C" {
+int __real_pthread_mutex_unlock(pthread_mutex_t* m);
+int __real_epoll_wait(int epfd, struct epoll_event* ev, int maxev, int timeout);
+int __real_poll(struct pollfd* fds, nfds_t n, int timeout);
+int __real_pthread_join(pthread_t th, void** ret);
 int __real_pthread_mutex_lock(pthread_mutex_t* m);
 ssize_t __real_write(int fd, const void* buf, size_t n);
 ssize_t __real_readv(int fd, const struct iovec* iov, int cnt);
@@ -115,6 +217,41 @@ extern "C" int __wrap_pthread_mutex_lock(pthread_mutex_t* m)
   return __real_pthread_mutex_lock(m);
 }
 
+extern "C" int __wrap_pthread_mutex_unlock(pthread_mutex_t* m)
+{
+  int r = __real_pthread_mutex_unlock(m);
+  IoCtl* io = t_io;
+  if (io && io->armSwap && m == io->loopMutex) { io->armSwap = false; io_park(io, 2); }
+  return r;
+}
+extern "C" int __wrap_epoll_wait(int epfd, struct epoll_event* ev, int maxev, int timeout)
+{
+  IoCtl* io = t_io;
+  if (io && !io->freeRun) { io_park(io, 1); if (!io->freeRun) return 0; }
+  if (io) io->inPoll = true;
+  int r = __real_epoll_wait(epfd, ev, maxev, io ? 50 : timeout);
+  if (io) io->inPoll = false;
+  return r;
+}
+extern "C" int __wrap_poll(struct pollfd* fds, nfds_t n, int timeout)
+{
+  IoCtl* io = t_io;
+  if (io && !io->freeRun) { io_park(io, 1); if (!io->freeRun) return 0; }
+  if (io) io->inPoll = true;
+  int r = __real_poll(fds, n, io ? 50 : timeout);
+  if (io) io->inPoll = false;
+  return r;
+}
+extern "C" int __wrap_pthread_join(pthread_t th, void** ret)
+{
+  if (t_inSrvDtor)
+  {
+    { std::lock_guard<std::mutex> l(g_poolMu); ++g_joinReached; }
+    g_poolCv.notify_all();
+  }
+  return __real_pthread_join(th, ret);
+}
+
 // ------------------------------------------------------------------ scripted kernel
 static const int64_t kT0 = 1700000000LL * 1000000LL;
 extern "C" int __wrap_gettimeofday(struct timeval* tv, void*) { tv->tv_sec = kT0 / 1000000; tv->tv_usec = 0; return 0; }
@@ -127,6 +264,7 @@ struct ConnRec
   std::vector<muduo::net::TcpConnectionPtr> urefs;
   bool fin, peerShut;
   int nDelay;
+  int timersSeen;     // outstanding forceCloseWithDelay timers when the connection's loop was last looked at
 };
 static std::vector<ConnRec> g_conns;
 static std::mutex g_mu;                 // protects g_events / g_fdconn (callbacks run on helper threads, one at a time)
@@ -136,6 +274,17 @@ static std::map<int, int> g_fdconn;     // server-side fd -> connection id (whil
 static std::map<int, int> g_tidIndex;   // kernel tid -> thread index
 static std::vector<int> g_epfd;         // per loop: epoll descriptor, or -1 when the loop uses PollPoller (MUDUO_USE_POLL)
 static std::vector<muduo::net::PollPoller*> g_pp;   // per loop: the PollPoller, or NULL
+// during the tear-down the io threads run concurrently: the descriptor table of the hooks has its own lock (taken
+// with the real pthread_mutex_lock: the wrapper is a schedule point of the foreign threads)
+static pthread_mutex_t g_fdMu = PTHREAD_MUTEX_INITIALIZER;
+static bool g_concurrent = false;
+extern "C" int __real_pthread_mutex_lock(pthread_mutex_t* m);
+extern "C" int __real_pthread_mutex_unlock(pthread_mutex_t* m);
+struct FdLock
+{
+  FdLock() { __real_pthread_mutex_lock(&g_fdMu); }
+  ~FdLock() { __real_pthread_mutex_unlock(&g_fdMu); }
+};
 static long g_wscript = -1;             // next write on a connection fd takes at most this many bytes (-1: all)
 static bool g_readvFail = false;
 static int g_badClose = 0;
@@ -188,7 +337,7 @@ static string epollMaskFd(int epfd, int fd)
 extern "C" ssize_t __wrap_write(int fd, const void* buf, size_t n)
 {
   bool ours;
-  { ours = g_fdconn.count(fd) > 0; }
+  { FdLock lk; ours = g_fdconn.count(fd) > 0; }
   if (!ours || g_wscript < 0)
   {
     ssize_t r = __real_write(fd, buf, n);
@@ -201,23 +350,29 @@ extern "C" ssize_t __wrap_write(int fd, const void* buf, size_t n)
 }
 extern "C" ssize_t __wrap_readv(int fd, const struct iovec* iov, int cnt)
 {
-  if (g_readvFail && g_fdconn.count(fd)) { g_readvFail = false; errno = ECONNRESET; return -1; }
+  if (g_readvFail) { FdLock lk; if (g_fdconn.count(fd)) { g_readvFail = false; errno = ECONNRESET; return -1; } }
   return __real_readv(fd, iov, cnt);
 }
 extern "C" int __wrap_shutdown(int fd, int how)
 {
-  std::map<int, int>::iterator it = g_fdconn.find(fd);
-  if (it != g_fdconn.end() && how == SHUT_WR) g_conns[static_cast<size_t>(it->second)].fin = true;
+  {
+    FdLock lk;
+    std::map<int, int>::iterator it = g_fdconn.find(fd);
+    if (it != g_fdconn.end() && how == SHUT_WR) g_conns[static_cast<size_t>(it->second)].fin = true;
+  }
   return __real_shutdown(fd, how);
 }
 extern "C" int __wrap_close(int fd)
 {
+  FdLock lk;
   std::map<int, int>::iterator it = g_fdconn.find(fd);
   if (it != g_fdconn.end())
   {
     int c = it->second;
     bool inset = false;
-    for (size_t l = 0; l < g_epfd.size(); ++l) inset = inset || epollMask(static_cast<int>(l), fd) != "-";
+    // (a PollPoller's table is read only by its own thread once the threads run concurrently)
+    for (size_t l = 0; l < g_epfd.size(); ++l)
+      if (!g_concurrent || !g_pp[l] || threadIndex() == static_cast<int>(l)) inset = inset || epollMask(static_cast<int>(l), fd) != "-";
     if (inset) ++g_badClose;
     g_dtors.push_back(std::make_pair(c, "Dtor@" + std::to_string(threadIndex()) + "#" + std::to_string(c) + (inset ? "!REGISTERED" : "")));
     g_fdconn.erase(it);
@@ -266,6 +421,19 @@ struct Worker
     cv.notify_all();
     cv.wait(l, [this]() { return done; });
   }
+  void startAsync(std::function<void()> f)
+  {
+    std::unique_lock<std::mutex> l(mu);
+    job = std::move(f);
+    has = true;
+    done = false;
+    cv.notify_all();
+  }
+  void wait()
+  {
+    std::unique_lock<std::mutex> l(mu);
+    cv.wait(l, [this]() { return done; });
+  }
   void stop()
   {
     { std::lock_guard<std::mutex> l(mu); quit = true; cv.notify_all(); }
@@ -276,16 +444,28 @@ struct Worker
 using namespace muduo;
 using namespace muduo::net;
 
+// a queued functor of an io loop, owned by the wrapper the harness puts in its place: the original functor object and the
+// references pinned to it die when the wrapper dies (end of doPendingFunctors, or ~EventLoop), on the thread that destroys it
+struct Hold
+{
+  EventLoop::Functor f;
+  std::vector<TcpConnectionPtr> pins;
+};
 struct LoopRec
 {
-  Worker w;
+  Worker w;             // base loop only
+  IoCtl* io;            // io loops only: the real thread of the pool
   EventLoop* loop;
   std::vector<EventLoop::Functor> batch;
   size_t next;          // next functor of the batch to run
-  bool active;
-  std::deque<std::vector<TcpConnectionPtr>> pendPins;   // aligned with pendingFunctors_: references pinned to raw functors
+  size_t batchSize;     // io loops: size of the batch the real doPendingFunctors swapped out
+  bool active;          // inside a drain
+  bool gone;            // io loops: the thread has left loop(), the EventLoop is destroyed
+  std::deque<std::vector<TcpConnectionPtr>> pendPins;   // base loop: aligned with pendingFunctors_: references pinned to raw functors
   std::vector<std::vector<TcpConnectionPtr>> batchPins;
-  LoopRec() : loop(NULL), next(0), active(false) {}
+  std::deque<std::weak_ptr<Hold>> pendHolds;            // io loops: aligned with pendingFunctors_
+  LoopRec() : io(NULL), loop(NULL), next(0), batchSize(0), active(false), gone(false) {}
+  void exec(std::function<void()> f) { if (io) io_exec(io, std::move(f)); else w.exec(std::move(f)); }
 };
 
 static void onConnection(const TcpConnectionPtr& c)
@@ -371,7 +551,36 @@ int main()
   TcpServer* server = NULL;
   TcpClient* client = NULL;
   bool strict = true, wc = false;
+  bool baseBusy = false;             // the base thread is inside ~TcpServer, blocked in the join() of an ~EventLoopThread
   int fds0 = 0;
+  // wait until the base thread has reached its next join() or ~TcpServer has returned
+  auto waitPoolEvent = [&](int prevJoin) {
+    std::unique_lock<std::mutex> l(g_poolMu);
+    if (!g_poolCv.wait_for(l, std::chrono::seconds(20), [&]() { return g_sdDone || g_joinReached > prevJoin; }))
+      harnessStuck("the base thread neither reached the next join() nor finished ~TcpServer");
+    baseBusy = !g_sdDone;
+    l.unlock();
+    if (!baseBusy) loops[0]->w.wait();     // the worker has taken note that its (asynchronous) job is over
+  };
+  // functors queued on an io loop are wrapped as soon as they are there (see Hold)
+  auto wrapQueues = [&]() {
+    for (size_t l = 1; l < loops.size(); ++l)
+    {
+      LoopRec* r = loops[l];
+      if (r->gone || !r->io) continue;
+      IoCtl* io = r->io;
+      MutexLockGuard lock(r->loop->mutex_);
+      std::vector<EventLoop::Functor>& q = r->loop->pendingFunctors_;
+      while (r->pendHolds.size() < q.size())
+      {
+        size_t i = r->pendHolds.size();
+        std::shared_ptr<Hold> h(new Hold);
+        h->f = std::move(q[i]);
+        r->pendHolds.push_back(h);
+        q[i] = [io, h]() { h->f(); io_park(io, 3); };
+      }
+    }
+  };
   while (std::getline(std::cin, line))
   {
     std::vector<string> w = vh::splitWs(line);
@@ -385,30 +594,41 @@ int main()
       wc = w[5] == "1";
       (void)strict;
       g_conns.clear(); g_events.clear(); g_dtors.clear(); g_fdconn.clear(); g_epfd.clear(); g_pp.clear(); g_badClose = 0;
+      g_concurrent = false;
       g_wscript = -1;
+      baseBusy = false;
+      { std::lock_guard<std::mutex> l(g_poolMu); g_sdDone = true; g_joinReached = 0; }
       for (int l = 0; l <= nio; ++l)
       {
         LoopRec* r = new LoopRec;
-        r->w.start(l);
-        r->w.exec([r]() { r->loop = new EventLoop; });
         loops.push_back(r);
-        {
-          EPollPoller* ep = dynamic_cast<EPollPoller*>(r->loop->poller_.get());
-          g_epfd.push_back(ep ? ep->epollfd_ : -1);
-          g_pp.push_back(ep ? NULL : dynamic_cast<PollPoller*>(r->loop->poller_.get()));
-          if (getenv("C02_DEBUG")) fprintf(stderr, "loop %d poller=%s\n", l, ep ? "epoll" : (g_pp.back() ? "poll" : "?"));
-        }
+        g_epfd.push_back(-1);
+        g_pp.push_back(NULL);
       }
+      loops[0]->w.start(0);
+      loops[0]->w.exec([&]() { loops[0]->loop = new EventLoop; });
+      int ioCount = 0;
       loops[0]->w.exec([&]() {
         InetAddress addr("127.0.0.1", 0);
         server = new TcpServer(loops[0]->loop, addr, "srv");
         server->setConnectionCallback(onConnection);
         server->setMessageCallback(onMessage);
         if (wc) server->setWriteCompleteCallback(onWriteComplete);
-        // what EventLoopThreadPool::start() leaves behind, with our own loops instead of free-running threads
-        server->threadPool_->started_ = true;
-        server->threadPool_->numThreads_ = nio;
-        for (int l = 1; l <= nio; ++l) server->threadPool_->loops_.push_back(loops[static_cast<size_t>(l)]->loop);
+        // the REAL pool: EventLoopThreadPool::start() creates the io threads, each runs EventLoopThread::threadFunc ->
+        // EventLoop::loop(); the init callback (on the io thread, before loop()) puts the thread under the harness's control
+        server->setThreadNum(nio);
+        server->threadPool_->start([&](EventLoop* lp) {
+          if (lp == loops[0]->loop) return;
+          int idx = ++ioCount;
+          IoCtl* io = new IoCtl;
+          io->index = idx;
+          io->loop = lp;
+          io->loopMutex = lp->mutex_.getPthreadMutex();
+          { std::lock_guard<std::mutex> l(g_mu); g_tidIndex[CurrentThread::tid()] = idx; }
+          loops[static_cast<size_t>(idx)]->io = io;
+          loops[static_cast<size_t>(idx)]->loop = lp;
+          t_io = io;
+        });
         server->started_.getAndSet(1);
         InetAddress srvAddr("127.0.0.1", g_port);
         client = new TcpClient(loops[0]->loop, srvAddr, "cli");
@@ -416,6 +636,15 @@ int main()
         client->setMessageCallback(onMessage);
         if (wc) client->setWriteCompleteCallback(onWriteComplete);
       });
+      for (int l = 1; l <= nio; ++l) io_wait_parked(loops[static_cast<size_t>(l)]->io, 1);    // every io thread is in poll()
+      for (int l = 0; l <= nio; ++l)
+      {
+        LoopRec* r = loops[static_cast<size_t>(l)];
+        EPollPoller* ep = dynamic_cast<EPollPoller*>(r->loop->poller_.get());
+        g_epfd[static_cast<size_t>(l)] = ep ? ep->epollfd_ : -1;
+        g_pp[static_cast<size_t>(l)] = ep ? NULL : dynamic_cast<PollPoller*>(r->loop->poller_.get());
+        if (getenv("C02_DEBUG")) fprintf(stderr, "loop %d poller=%s\n", l, ep ? "epoll" : (g_pp[static_cast<size_t>(l)] ? "poll" : "?"));
+      }
       printf("case %s\n", w[1].c_str());
       fflush(stdout);
       continue;
@@ -459,11 +688,34 @@ int main()
         delete f;
       }
       calls.clear();
+      // the io threads of the pool run free from here on (the hooks no longer park them)
+      g_concurrent = true;
+      for (size_t l = 1; l < loops.size(); ++l)
+      {
+        LoopRec* r = loops[l];
+        if (!r->io) continue;
+        std::lock_guard<std::mutex> lk(r->io->mu);
+        r->io->freeRun = true;
+        r->io->cv.notify_all();
+      }
+      auto poolGone = [&]() {
+        for (size_t l = 1; l < loops.size(); ++l) { loops[l]->gone = true; loops[l]->loop = NULL; g_epfd[l] = -1; g_pp[l] = NULL; }
+      };
+      if (baseBusy) { loops[0]->w.wait(); baseBusy = false; poolGone(); }
+      auto ioBarrier = [&](LoopRec* r) {
+        sem_t done;
+        sem_init(&done, 0, 0);
+        r->loop->queueInLoop([&done]() { sem_post(&done); });
+        sem_wait(&done);
+        sem_destroy(&done);
+      };
       auto drain = [&]() {
         for (int round = 0; round < 8; ++round)
           for (size_t l = 0; l < loops.size(); ++l)
           {
             LoopRec* r = loops[l];
+            if (r->gone) continue;
+            if (r->io) { ioBarrier(r); continue; }
             r->w.exec([r]() {
               if (r->active) { for (; r->next < r->batch.size(); ++r->next) r->batch[r->next](); r->batch.clear(); r->active = false; }
               r->loop->callingPendingFunctors_ = false;
@@ -473,35 +725,47 @@ int main()
           }
       };
       drain();
+      // close what is still up.  With io threads also the connections the server still owns: a free-running ~TcpServer with
+      // two hand-offs to one io loop is the very schedule of the finding (the second hand-off can land behind the batch)
       for (size_t i = 0; i < g_conns.size(); ++i)
       {
         ConnRec* cr = &g_conns[i];
         TcpConnectionPtr p = cr->weak.lock();
-        if (!p) continue;
+        if (!p || cr->loop < 0) continue;
+        LoopRec* r = loops[static_cast<size_t>(cr->loop)];
+        if (r->gone) continue;
         bool up = p->state_ == TcpConnection::kConnected || p->state_ == TcpConnection::kDisconnecting;
         bool serverOwned = false;
         if (server) for (auto& e : server->connections_) serverOwned = serverOwned || e.second.get() == p.get();
-        if (up && !serverOwned)
+        if (r->io)
+        {
+          r->loop->queueInLoop([p]() { if (p->state_ == TcpConnection::kConnected || p->state_ == TcpConnection::kDisconnecting) p->handleClose(); });
+          p.reset();
+          ioBarrier(r);
+        }
+        else if (up && !serverOwned)
         {
           TcpConnection* raw = p.get();
           p.reset();
           if (getenv("C02_DEBUG")) fprintf(stderr, "teardown: closing conn %zu (state %d)\n", i, static_cast<int>(raw->state_));
-          loops[static_cast<size_t>(cr->loop)]->w.exec([raw]() { raw->handleClose(); });
+          r->w.exec([raw]() { raw->handleClose(); });
         }
       }
       drain();
+      drain();
       loops[0]->w.exec([&]() { delete server; server = NULL; delete client; client = NULL; });
+      poolGone();      // the pool is destroyed, its threads are joined
       drain();
       user0.exec([&]() { held.clear(); for (size_t i = 0; i < g_conns.size(); ++i) g_conns[i].urefs.clear(); });
-      for (size_t l = 0; l < loops.size(); ++l) { LoopRec* r = loops[l]; r->w.exec([r]() { r->batchPins.clear(); r->pendPins.clear(); }); }
+      for (size_t l = 0; l < loops.size(); ++l) { LoopRec* r = loops[l]; if (!r->io) r->w.exec([r]() { r->batchPins.clear(); r->pendPins.clear(); }); }
       drain();
       int leaked = 0;
       for (size_t i = 0; i < g_conns.size(); ++i) { if (!g_conns[i].weak.expired()) ++leaked; ::close(g_conns[i].peer); }
       for (size_t l = 0; l < loops.size(); ++l)
       {
         LoopRec* r = loops[l];
-        r->w.exec([r]() { delete r->loop; r->loop = NULL; });
-        r->w.stop();
+        if (!r->io) { r->w.exec([r]() { delete r->loop; r->loop = NULL; }); r->w.stop(); }
+        delete r->io;
         delete r;
       }
       loops.clear();
@@ -522,25 +786,25 @@ int main()
       if (p && p->state_ == TcpConnection::kConnecting) p.reset();
       return p;
     };
-    auto idle = [&](int l) { return !loops[static_cast<size_t>(l)]->active; };
+    auto idle = [&](int l) { return !loops[static_cast<size_t>(l)]->active && !loops[static_cast<size_t>(l)]->gone; };
+    // the base thread cannot do anything while it is blocked in ~TcpServer's join()
+    auto baseFree = [&](int l) { return !(l == 0 && baseBusy); };
     // functors appended to a loop's queue by this op carry no pin unless the op says so
     auto syncPins = [&]() {
-      for (size_t l = 0; l < loops.size(); ++l)
-      {
-        LoopRec* r = loops[l];
-        size_t n = r->loop->pendingFunctors_.size();
-        while (r->pendPins.size() < n) r->pendPins.push_back(std::vector<TcpConnectionPtr>());
-      }
+      LoopRec* r = loops[0];
+      size_t n = r->loop->pendingFunctors_.size();
+      while (r->pendPins.size() < n) r->pendPins.push_back(std::vector<TcpConnectionPtr>());
+      wrapQueues();
     };
     if (k == "ACC")
     {
-      if (!server) rejected = true;
+      if (!server || baseBusy) rejected = true;
       else
       {
         ConnRec cr;
         InetAddress peerAddr;
         if (!makePair(&cr.fd, &cr.peer, &peerAddr)) return 3;
-        cr.fin = cr.peerShut = false; cr.nDelay = 0; cr.raw = NULL; cr.loop = -1;
+        cr.fin = cr.peerShut = false; cr.nDelay = 0; cr.raw = NULL; cr.loop = -1; cr.timersSeen = 0;
         int id = static_cast<int>(g_conns.size());
         g_fdconn[cr.fd] = id;
         g_conns.push_back(cr);
@@ -576,18 +840,36 @@ int main()
     }
     else if (k == "SDESTROY")
     {
-      if (!server) rejected = true;
-      else loops[0]->w.exec([&]() { delete server; server = NULL; });
+      if (!server || baseBusy) rejected = true;
+      else if (loops.size() == 1) loops[0]->w.exec([&]() { delete server; server = NULL; });
+      else
+      {
+        // ~TcpServer: the body, then threadPool_ dies: ~EventLoopThread of io loop 1 does quit() and blocks in join().  The op ends
+        // when the base thread has reached that join (or, with every io loop in poll() and nothing to do, never: the io
+        // threads are parked, so it does block)
+        int prev;
+        { std::lock_guard<std::mutex> l(g_poolMu); prev = g_joinReached; g_sdDone = false; }
+        TcpServer* victim = server;
+        server = NULL;
+        loops[0]->w.startAsync([victim]() {
+          t_inSrvDtor = true;
+          delete victim;
+          t_inSrvDtor = false;
+          { std::lock_guard<std::mutex> l(g_poolMu); g_sdDone = true; }
+          g_poolCv.notify_all();
+        });
+        waitPoolEvent(prev);
+      }
     }
     else if (k == "CCONN")
     {
-      if (!client || client->connection_) rejected = true;
+      if (!client || client->connection_ || baseBusy) rejected = true;
       else
       {
         ConnRec cr;
         InetAddress peerAddr;
         if (!makePair(&cr.fd, &cr.peer, &peerAddr)) return 3;
-        cr.fin = cr.peerShut = false; cr.nDelay = 0; cr.raw = NULL; cr.loop = 0;
+        cr.fin = cr.peerShut = false; cr.nDelay = 0; cr.raw = NULL; cr.loop = 0; cr.timersSeen = 0;
         int id = static_cast<int>(g_conns.size());
         g_fdconn[cr.fd] = id;
         g_conns.push_back(cr);
@@ -604,7 +886,7 @@ int main()
     }
     else if (k == "CDESTROY")
     {
-      if (!client) rejected = true;
+      if (!client || baseBusy) rejected = true;
       else loops[0]->w.exec([&]() { delete client; client = NULL; });
     }
     else if (k == "SWAP" || k == "RUN" || k == "END")
@@ -614,7 +896,64 @@ int main()
       else
       {
         LoopRec* r = loops[static_cast<size_t>(l)];
-        if (k == "SWAP")
+        if (r->gone || !baseFree(l)) rejected = true;
+        else if (r->io)
+        {
+          // the real loop(): SWAP lets the io thread return from poll() with no event and run doPendingFunctors up to the swap;
+          // RUN lets it run the next functor of the batch; END lets it finish doPendingFunctors and evaluate `while (!quit_)`:
+          // back into poll(), or - with quit_ stored by ~EventLoopThread - out of loop(): the EventLoop dies with its queue
+          IoCtl* io = r->io;
+          if (k == "SWAP")
+          {
+            if (r->active) rejected = true;
+            else
+            {
+              syncPins();
+              r->batchSize = r->loop->pendingFunctors_.size();
+              io_release(io, true);
+              io_wait_parked(io, 2);
+              r->pendHolds.clear();
+              r->next = 0;
+              r->active = true;
+            }
+          }
+          else if (k == "RUN")
+          {
+            if (!r->active || r->next >= r->batchSize) rejected = true;
+            else
+            {
+              g_wscript = (w[2] == "1") ? -1 : 1;
+              io_release(io, false);
+              io_wait_parked(io, 3);
+              r->next++;
+              g_wscript = -1;
+            }
+          }
+          else
+          {
+            if (!r->active || r->next < r->batchSize) rejected = true;
+            else
+            {
+              bool quit = r->loop->quit_;
+              int prev;
+              { std::lock_guard<std::mutex> lk(g_poolMu); prev = g_joinReached; }
+              io_release(io, false);
+              r->active = false;
+              if (!quit) io_wait_parked(io, 1);
+              else
+              {
+                // the io thread leaves loop(); join() returns in the base thread, which goes on to the next ~EventLoopThread
+                waitPoolEvent(prev);
+                r->gone = true;
+                r->loop = NULL;
+                r->pendHolds.clear();
+                g_epfd[static_cast<size_t>(l)] = -1;
+                g_pp[static_cast<size_t>(l)] = NULL;
+              }
+            }
+          }
+        }
+        else if (k == "SWAP")
         {
           if (r->active) rejected = true;
           else
@@ -630,7 +969,6 @@ int main()
             r->pendPins.clear();
             r->next = 0;
             r->active = true;
-            if (r->batch.empty()) { r->active = false; r->w.exec([r]() { r->loop->callingPendingFunctors_ = false; }); }
           }
         }
         else if (k == "RUN")
@@ -646,7 +984,7 @@ int main()
         }
         else
         {
-          if (!r->active || r->next < r->batch.size() || r->batch.empty()) rejected = true;
+          if (!r->active || r->next < r->batch.size()) rejected = true;
           else
           {
             r->w.exec([r]() { r->batch.clear(); r->batchPins.clear(); r->loop->callingPendingFunctors_ = false; });
@@ -666,7 +1004,7 @@ int main()
         Channel* ch = p->channel_.get();
         string mask = epollMask(cr.loop, cr.fd);
         const string& e = w[2];
-        if (!ch->addedToLoop_ || mask == "-" || !idle(cr.loop)) rejected = true;
+        if (!ch->addedToLoop_ || mask == "-" || !idle(cr.loop) || !baseFree(cr.loop)) rejected = true;
         else if ((e == "DATA" || e == "EOF" || e == "RERR") && !ch->isReading()) rejected = true;
         else if (e == "OUT" && !ch->isWriting()) rejected = true;
         else
@@ -685,7 +1023,7 @@ int main()
           }
           p.reset();      // the dispatch must not be kept alive by the harness: Channel::handleEvent takes its own guard
           LoopRec* r = loops[static_cast<size_t>(cr.loop)];
-          r->w.exec([ch, rev]() { ch->set_revents(rev); ch->handleEvent(Timestamp::now()); });
+          r->exec([ch, rev]() { ch->set_revents(rev); ch->handleEvent(Timestamp::now()); });
           g_wscript = -1;
           g_readvFail = false;
         }
@@ -695,13 +1033,13 @@ int main()
     else if (k == "DFIRE")
     {
       int c = I(1);
-      if (!connOk(c) || !idle(g_conns[static_cast<size_t>(c)].loop)) rejected = true;
+      if (!connOk(c) || !idle(g_conns[static_cast<size_t>(c)].loop) || !baseFree(g_conns[static_cast<size_t>(c)].loop)) rejected = true;
       else
       {
         ConnRec& cr = g_conns[static_cast<size_t>(c)];
         LoopRec* r = loops[static_cast<size_t>(cr.loop)];
         bool fired = false;
-        r->w.exec([&]() {
+        r->exec([&]() {
           TimerQueue* tq = r->loop->timerQueue_.get();
           int64_t lo = kT0 + 1000LL * (c + 1) * 1000000LL, hi = lo + 1000LL * 1000000LL;
           for (TimerQueue::TimerList::iterator it = tq->timers_.begin(); it != tq->timers_.end(); ++it)
@@ -727,6 +1065,7 @@ int main()
       int c = I(1);
       TcpConnectionPtr p = aliveUp(c);
       if (!p) rejected = true;
+      else if (loops[static_cast<size_t>(g_conns[static_cast<size_t>(c)].loop)]->gone || !baseFree(g_conns[static_cast<size_t>(c)].loop)) rejected = true;
       else if ((k == "LSR" || k == "LSP") && !p->channel_->addedToLoop_) rejected = true;
       else
       {
@@ -737,7 +1076,7 @@ int main()
         double delay = 1000.0 * (c + 1) + cr.nDelay;
         if (k == "LFCD") cr.nDelay++;
         if (k == "LSEND") g_wscript = (w[2] == "1") ? -1 : 1;
-        r->w.exec([&]() {
+        r->exec([&]() {
           if (k == "LSHUT") raw->shutdown();
           else if (k == "LFC") raw->forceClose();
           else if (k == "LFCD") raw->forceCloseWithDelay(delay);
@@ -891,7 +1230,8 @@ int main()
         {
           f->copy.reset();
           syncPins();
-          r->pendPins.back().push_back(std::move(keep));
+          if (r->io) { std::shared_ptr<Hold> h = r->pendHolds.back().lock(); h->pins.push_back(std::move(keep)); }
+          else r->pendPins.back().push_back(std::move(keep));
         }
         delete f;
         calls.erase(it);
@@ -916,12 +1256,15 @@ int main()
       // references the harness knows to be temporaries of a stalled call (the bound functor / the shared_from_this()
       // temporary of forceClose / forceCloseWithDelay parked at the queue's mutex) are not holders of the model
       for (auto& cl : calls) if (cl.second->conn == static_cast<int>(i) && cl.second->at == 2 && (cl.second->api == 1 || cl.second->api == 2)) uc -= 1;
-      int timers = 0;
+      int timers = cr.timersSeen;
+      if (!loops[static_cast<size_t>(cr.loop)]->gone)
       {
+        timers = 0;
         TimerQueue* tq = loops[static_cast<size_t>(cr.loop)]->loop->timerQueue_.get();
         int64_t lo = kT0 + 1000LL * (static_cast<int64_t>(i) + 1) * 1000000LL, hi = lo + 1000LL * 1000000LL;
         for (TimerQueue::TimerList::iterator it = tq->timers_.begin(); it != tq->timers_.end(); ++it)
           if (it->first.microSecondsSinceEpoch() >= lo && it->first.microSecondsSinceEpoch() < hi) ++timers;
+        cr.timersSeen = timers;
       }
       char buf[128];
       snprintf(buf, sizeof buf, "L%dS%dw%dr%df%da%de%sh%ldd%dn%d", cr.loop, static_cast<int>(p->state_), p->channel_->isWriting() ? 1 : 0,
@@ -935,8 +1278,12 @@ int main()
     {
       LoopRec* r = loops[l];
       if (!qs.empty()) qs += ";";
-      size_t batchLeft = r->active ? r->batch.size() - r->next : 0, spent = r->active ? r->next : 0;
-      qs += std::to_string(r->loop->queueSize()) + "/" + std::to_string(batchLeft) + "/" + std::to_string(spent);
+      if (r->gone) { qs += "gone"; continue; }
+      size_t bsz = r->io ? r->batchSize : r->batch.size();
+      size_t batchLeft = r->active ? bsz - r->next : 0, spent = r->active ? r->next : 0;
+      // 'd' = callingPendingFunctors_ (the real flag), 'q' = quit_ (stored by the real ~EventLoopThread)
+      qs += std::to_string(r->loop->queueSize()) + "/" + std::to_string(batchLeft) + "/" + std::to_string(spent) +
+            (r->loop->callingPendingFunctors_ ? "d" : "") + (r->loop->quit_ ? "q" : "");
     }
     string cli = "-";
     if (client && client->connection_)
